@@ -16,7 +16,8 @@ RULE = ("core: Hypothesis pairs of equally long pose sequences (1-12 poses drawn
         "with theta from the special list next to 0 and pi, both storage modes and pre-read views, all 7 pose "
         "relations; cli: evo_ape driven in-process on generated TUM/KITTI/EuRoC files with option combinations, "
         "archive read back by an independent reader and compared with the reference pipeline. Non-trivial = >= 2 "
-        "poses and an error above tolerance or a special relative angle (cli: >= 1 processing option); distinct by SHA-1")
+        "poses and an error above tolerance or a special relative angle (cli: >= 1 processing option); distinct by SHA-1"
+        ' Round-3 additions: the same files evaluated 1-3 times in one process with different options; plot options (--serialize_plot, x dimension, colour-map percentile) in one case of six.')
 ASSUMPTIONS = ["reference definitions in vf/refmodel.py (E = est^-1 ref, atan2 angle, Frobenius norms)",
                "tolerances: lengths 64 eps (max|coord|+1) + 1e-12 |v|; angles 1e-9 rad; Frobenius 1e-9 + length tolerance"]
 
